@@ -1418,6 +1418,7 @@ class Interp:
         aw = self.eval(node.value, env)
         if self.await_handler is None:
             raise Unsupported("await outside a coroutine rule")
+        self._await_env = env
         return self.await_handler(self, aw, node)
 
     def e_Yield(self, node, env):
